@@ -5,7 +5,7 @@
 -/
 import Nervus.Proofs.CrashPlan
 import Nervus.Proofs.CrashImg
-import Nervus.Proofs.CrashTree
+import Nervus.Proofs.CrashTreeM
 namespace Nervus.Crash
 
 def allNodes (T : List Tx) : List Nat := T.flatMap (·.nodes)
@@ -40,12 +40,40 @@ structure LogOK (T : List Tx) (cs : List CTx) (c : Nat) : Prop where
   mono : TxMono cs
   maxle : ∀ tx ∈ cs, tx.txid ≤ (scan cs).maxTxid
 
-/-- the live property tree of the manifest (no leaf was ever split): one intact leaf whose entries
-    are properties of `T` (`allowed`) and include, with their value blobs, the `covered` ones -/
-structure TreeOK (allowed covered : List Nat) (t : TreeImg) : Prop where
-  shape : ∃ xs pid, t.leaves = [⟨xs.map some, false, pid⟩] ∧ SortedNat xs ∧ (∀ q ∈ xs, q ∈ allowed) ∧
-    (∀ q ∈ covered, q ∈ xs ∧ q ∈ t.blobs)
-  noinode : t.inode = none
+/-- the live property tree of the manifest: a sorted chain of leaves (one leaf entered directly,
+    or several under an internal root: `top`) whose keys are properties of `T` (`allowed`) and
+    include, with their value blobs, the `covered` ones -/
+structure TreeOK (allowed covered : List Nat) (top : Bool) (t : TreeImg) : Prop where
+  shape : ∃ X, TreeShape t X top ∧ (∀ q ∈ X.flatten, q ∈ allowed) ∧ (∀ q ∈ covered, q ∈ X.flatten ∧ q ∈ t.blobs)
+
+/-- the shape of the live tree a compaction works on: its fixed leaves `Xi` (all but the last one),
+    whether it has an internal root, and the first key of the last leaf (what the root knows of it) -/
+structure LiveP where
+  top : Bool := false
+  Xi : List (List Nat) := []
+  hd : Nat := 0
+
+/-- the live tree during a compaction: the chain `Xi ++ [last]`; only the last leaf is rewritten
+    (entries appended), its first key stays -/
+structure LiveOK (allowed covered : List Nat) (lv : LiveP) (t : TreeImg) (last : List Nat) : Prop where
+  shape : TreeShape t (lv.Xi ++ [last]) lv.top
+  hd : lv.Xi ≠ [] → last.headD 0 = lv.hd
+  allowed : ∀ q ∈ (lv.Xi ++ [last]).flatten, q ∈ allowed
+  covered : ∀ q ∈ covered, q ∈ (lv.Xi ++ [last]).flatten ∧ q ∈ t.blobs
+
+theorem LiveOK.treeOK {allowed covered : List Nat} {lv : LiveP} {t : TreeImg} {last : List Nat}
+    (h : LiveOK allowed covered lv t last) : TreeOK allowed covered lv.top t :=
+  ⟨⟨_, h.shape, h.allowed, h.covered⟩⟩
+
+/-- every tree of the invariant is a live tree for the parameters read off its chain -/
+theorem TreeOK.live {allowed covered : List Nat} {top : Bool} {t : TreeImg} (h : TreeOK allowed covered top t) :
+    ∃ lv last, lv.top = top ∧ LiveOK allowed covered lv t last := by
+  obtain ⟨X, hs, h1, h2⟩ := h.shape
+  have hX : X = X.dropLast ++ [X.getLast hs.ne] := (List.dropLast_concat_getLast hs.ne).symm
+  refine ⟨⟨top, X.dropLast, (X.getLast hs.ne).headD 0⟩, X.getLast hs.ne, rfl, ?_⟩
+  exact ⟨by show TreeShape t (X.dropLast ++ [X.getLast hs.ne]) top; rw [← hX]; exact hs, fun _ => rfl,
+    by show ∀ q ∈ (X.dropLast ++ [X.getLast hs.ne]).flatten, _; rw [← hX]; exact h1,
+    by show ∀ q ∈ covered, q ∈ (X.dropLast ++ [X.getLast hs.ne]).flatten ∧ _; rw [← hX]; exact h2⟩
 
 /-- segments and property tree of the manifest hold, together with the runs the log still
     replays, exactly the edges and properties of `T` -/
@@ -55,10 +83,9 @@ structure StoreOK (T : List Tx) (cs : List CTx) (p : PImg) : Prop where
   treeKeys : ∀ t ∈ p.trees, t.key < p.hdr.nextPage ∧ t.key < p.bm
   edges : ∀ e, e ∈ (scan cs).segs.flatMap (segEdges p) ++ (logRuns (scan cs).ckpt cs).flatMap (·.edges) ↔ e ∈ allEdges T
   runProps : ∀ q ∈ (logRuns (scan cs).ckpt cs).flatMap (·.props), q ∈ allProps T
-  ptop : (scan cs).ptop = false
   props : ∃ covered, (∀ q ∈ allProps T, q ∈ (logRuns (scan cs).ckpt cs).flatMap (·.props) ∨ q ∈ covered) ∧
     ((scan cs).proot = 0 → covered = []) ∧
-    ((scan cs).proot ≠ 0 → ∃ t, treeFind p (scan cs).proot = some t ∧ TreeOK (allProps T) covered t)
+    ((scan cs).proot ≠ 0 → ∃ t, treeFind p (scan cs).proot = some t ∧ TreeOK (allProps T) covered (scan cs).ptop t)
 
 /-- the node table on disk is a prefix of the node list that covers everything the log no longer
     replays (`c` nodes) -/
@@ -134,7 +161,6 @@ theorem Frame.store {p0 p : PImg} {T : List Tx} {cs : List CTx} (f : Frame p0 p)
     have : segEdges p = segEdges p0 := by funext k; simp [segEdges, segFind, f.segs]
     intro e; rw [this]; exact h.edges e
   runProps := h.runProps
-  ptop := h.ptop
   props := by
     obtain ⟨cov, h1, h2, h3⟩ := h.props
     exact ⟨cov, h1, h2, fun hne => by simpa [treeFind, f.trees] using h3 hne⟩
@@ -184,10 +210,12 @@ def HStep (c : Nat) (p0 : PImg) (k : Nat) : Step → Prop
   | _ => False
 
 theorem tornEff_simple (p : PImg) (e e' : PEff) (hl : ∀ k i es sib pid, e ≠ .leaf k i es sib pid)
+    (hi : ∀ k seps pid, e ≠ .inode k seps pid)
     (h : tornEff p e = some e') : e' = e := by
-  cases e <;> simp [tornEff] at h <;> try (exact h.symm)
+  cases e <;> (try simp [tornEff] at h) <;> try (exact h.symm)
   case slot i x => exact h.2.symm
   case leaf k i es sib pid => exact absurd rfl (hl k i es sib pid)
+  case inode k seps pid => exact absurd rfl (hi k seps pid)
 
 theorem ng_applyEff {N : List Nat} {c k : Nat} {p0 p : PImg} {e : PEff} {pid : Nat}
     (h : NG N c p0 k p) (hs : HStep c p0 k (.pg e pid)) : NG N c p0 k (applyEff e p) := by
@@ -216,6 +244,12 @@ theorem hstep_not_leaf {c k : Nat} {p0 : PImg} {e : PEff} {pid : Nat} (hs : HSte
   subst he
   simp [HStep] at hs
 
+theorem hstep_not_inode {c k : Nat} {p0 : PImg} {e : PEff} {pid : Nat} (hs : HStep c p0 k (.pg e pid)) :
+    ∀ kk seps pd, e ≠ .inode kk seps pd := by
+  intro kk seps pd he
+  subst he
+  simp [HStep] at hs
+
 /-- a harmless step keeps every power-loss image in the class -/
 theorem allImgs_hstep {N : List Nat} {c k : Nat} {p0 : PImg} (fs : FS) (s : Step)
     (h : AllImgs fs (NG N c p0 k)) (hs : HStep c p0 k s) : AllImgs (fs.step s) (NG N c p0 k) := by
@@ -225,7 +259,7 @@ theorem allImgs_hstep {N : List Nat} {c k : Nat} {p0 : PImg} (fs : FS) (s : Step
     intro p hp
     refine ⟨ng_applyEff hp hs, ?_⟩
     intro e' ht
-    have := tornEff_simple p e e' (hstep_not_leaf hs) ht
+    have := tornEff_simple p e e' (hstep_not_leaf hs) (hstep_not_inode hs) ht
     subst this
     exact ng_applyEff hp hs
   case ps => exact allImgs_ps fs _ (allImgs_pv fs _ h)
